@@ -94,51 +94,73 @@ pub fn run_job(job: &Job) -> bool {
             }));
         }
         drop(tx);
-        // local cancellations and the concurrent writer run on the main thread
+        // local cancellations run on the main thread; the concurrent writer gets a thread of its own (it
+        // blocks until every clone is gone), so that the watchdog below can still fire
         let mut cancels: Vec<[i64; 2]> = round.cancels.clone();
         cancels.sort_by_key(|c| c[1]);
-        let mut writer_done = round.writer.is_empty();
-        let mut finished = 0usize;
         let n = round.threads.len();
-        let deadline = std::time::Instant::now() + Duration::from_secs(20);
+        let writer_done = std::sync::atomic::AtomicBool::new(round.writer.is_empty());
+        let writer_ops = round.writer.clone();
+        let nwriter = writer_ops.len();
         let mut hang = false;
-        while finished < n || !writer_done {
-            let since = (crate::log::lines() - line0) as i64;
-            while let Some(c) = cancels.first().copied() {
-                if since >= c[1] || finished == n {
-                    cancels.remove(0);
-                    if finished < n {
-                        ev!("e": "cancel_begin", "h": c[0]);
-                        tokens[c[0] as usize - 1].cancel();
-                        ev!("e": "cancel_end", "h": c[0]);
-                    }
-                } else {
-                    break;
-                }
-            }
-            if !writer_done && (since >= round.writer_after || finished == n) {
-                // the write blocks until every clone is gone; the watchdog cannot interrupt it, so it
-                // runs in this thread only once started and the readers are expected to get cancelled
-                for op in &round.writer {
-                    do_mut_op(&mut db, op, opn);
-                    opn += 1;
-                }
-                writer_done = true;
-                continue;
-            }
-            match rx.recv_timeout(Duration::from_millis(1)) {
-                Ok(_) => finished += 1,
-                Err(mpsc::RecvTimeoutError::Timeout) => {
-                    if std::time::Instant::now() > deadline {
-                        hang = true;
+        let mut finished = 0usize;
+        std::thread::scope(|sc| {
+            let mut writer_started = round.writer.is_empty();
+            let deadline = std::time::Instant::now() + Duration::from_secs(20);
+            let mut dbm = Some(&mut db);
+            let wd = &writer_done;
+            while finished < n || !writer_done.load(Ordering::SeqCst) {
+                let since = (crate::log::lines() - line0) as i64;
+                while let Some(c) = cancels.first().copied() {
+                    if since >= c[1] || finished == n {
+                        cancels.remove(0);
+                        if finished < n {
+                            ev!("e": "cancel_begin", "h": c[0]);
+                            tokens[c[0] as usize - 1].cancel();
+                            ev!("e": "cancel_end", "h": c[0]);
+                        }
+                    } else {
                         break;
                     }
                 }
-                Err(mpsc::RecvTimeoutError::Disconnected) => {
-                    finished = n;
+                if !writer_started && (since >= round.writer_after || finished == n) {
+                    writer_started = true;
+                    let dbw = dbm.take().unwrap();
+                    let ops = writer_ops.clone();
+                    let base = opn;
+                    sc.spawn(move || {
+                        register_thread(0);
+                        for (i, op) in ops.iter().enumerate() {
+                            do_mut_op(dbw, op, base + i);
+                        }
+                        wd.store(true, Ordering::SeqCst);
+                    });
+                    continue;
+                }
+                if finished < n {
+                    match rx.recv_timeout(Duration::from_millis(1)) {
+                        Ok(_) => finished += 1,
+                        Err(mpsc::RecvTimeoutError::Timeout) => {}
+                        Err(mpsc::RecvTimeoutError::Disconnected) => finished = n,
+                    }
+                } else {
+                    std::thread::sleep(Duration::from_millis(1));
+                }
+                if std::time::Instant::now() > deadline {
+                    hang = true;
+                    break;
                 }
             }
-        }
+            if hang {
+                // threads are stuck inside salsa: the process cannot recover them; the trace so far is the data
+                ev!("e": "hang", "finished": finished, "threads": n);
+                crate::log::flush();
+                crate::log::close();
+                eprintln!("drive: hang in job {}", job.id);
+                std::process::exit(0);
+            }
+        });
+        opn += nwriter;
         if hang {
             ev!("e": "hang", "finished": finished, "threads": n);
             crate::log::flush();
